@@ -64,6 +64,11 @@ pub struct Case {
     pub pattern: Pattern,
     /// images drawn, in order, on one handler: each is the base image with 0..=2 nested crops
     pub views: Vec<Vec<CropSpec>>,
+    /// history on the second handler: before each view is drawn properly it is first drawn into
+    /// a writer that accepts this many bytes and then fails (a terminal that went away, a full
+    /// non-blocking pipe); the failed call's outcome is ignored
+    #[serde(default)]
+    pub refused_first: Option<u16>,
 }
 
 // ---------------------------------------------------------------------------------------
@@ -784,6 +789,12 @@ pub fn check_case(c: &Case) -> Outcome {
     let mut h2 = SixelImageHandler::new(bg);
     for v in views.iter().rev() {
         let ctx = format!("{} [fresh handler, reverse order]", v.ctx);
+        if let Some(room) = c.refused_first {
+            let mut w = crate::c05::RefusingWriter { room: room as usize };
+            let _ = guard_val(|| h2.draw(&mut w, &v.img, Position::new(0, 0)))
+                .map_err(|f| Fail::new(f.sig, format!("{ctx} [into a writer that refuses after {room} bytes]: {}", f.msg)))?;
+        }
+        let ctx = if c.refused_first.is_some() { format!("{ctx} [after a draw of the same view into a refusing writer]") } else { ctx };
         let bytes = draw(&mut h2, &v.img, &ctx)?;
         check_draw(&bytes, &v.px, &v.exp, &ctx)?;
     }
@@ -1033,13 +1044,14 @@ fn case_strategy(tier: Tier) -> BoxedStrategy<Case> {
             (dims(tier, min), Just(bg), Just(palette))
         })
         .prop_flat_map(|((h, w), bg, palette)| {
-            (pattern(h, w, false), views()).prop_map(move |(pattern, views)| Case {
+            (pattern(h, w, false), views(), proptest::option::weighted(0.25, prop_oneof![Just(0u16), 1u16..40, 40u16..3000])).prop_map(move |(pattern, views, refused_first)| Case {
                 h,
                 w,
                 bg,
                 palette: palette.clone(),
                 pattern,
                 views,
+                refused_first,
             })
         });
     // 256 opaque colours (distinct at 0-100 resolution) one of which is the reduced
@@ -1067,6 +1079,7 @@ fn case_strategy(tier: Tier) -> BoxedStrategy<Case> {
                 palette: palette.clone(),
                 pattern,
                 views,
+                refused_first: None,
             })
         });
     prop_oneof![12 => general, 1 => edge].boxed()
@@ -1102,7 +1115,7 @@ impl Property for C12 {
          (index vectors have any length >= 1 and are read cyclically, so they shrink by removal); \
          special class: 256 colours one of which is both an opaque colour and the background showing through fully transparent pixels; bg in {None, colour}; \
          1..=3 views (full image, crop, crop of a crop; >= 6 rows, >= 1 column) drawn in order on one handler, all drawn a second time (bytes must be identical), \
-         then drawn in reverse order on a fresh handler. Every draw is decoded by an independent sixel interpreter and checked for well-formedness, declared size, \
+         then drawn in reverse order on a fresh handler (in one case of four each of those draws is preceded by a draw of the same view into a writer that fails after 0-2999 bytes). Every draw is decoded by an independent sixel interpreter and checked for well-formedness, declared size, \
          registers, full coverage, nothing outside, and pixel-exactness when colours fit. \
          non-trivial = some draw has >= 2 bands and >= 2 colours painted in one band and a repeat introducer with count >= 4 on a non-empty sixel"
             .into()
